@@ -312,6 +312,7 @@ func parseBlock(nativeBlock *hclsyntax.Block, from, leadComments, lineComments, 
     }
 
     before, labelsNode, from := parseBlockLabels(nativeBlock, from)
+    children.AppendUnstructuredTokens(before.Tokens())
     block.labels = labelsNode
     children.AppendNode(labelsNode)
 
